@@ -371,6 +371,94 @@ def r6(ctx):
     C05.r4(ctx)
 
 
+def _srcs(term):
+    """which of the two initial event sources a term is derived from"""
+    out = set()
+    for s_ in mir.subterms(term):
+        r = render(s_) if s_[0] in ("call", "proj") else ""
+        if s_[0] == "call" and s_[1].endswith("SnapshotFetcher::fetch_snapshots"):
+            out.add("snapshots")
+        if (s_[0] == "call" and mir.short(s_[1]).endswith("process_buffered_events")) or r.endswith(".buffered_websocket_events"):
+            out.add("buffered")
+    return out
+
+
+def _strip_transformer(term):
+    """the transformer (initialised FROM the snapshots) is captured by the closure that replays the buffered messages: that is
+    a dependency of the replay on the snapshots' sequence numbers, not a source of events - cut closure captures out"""
+    def f(q):
+        if q[0] == "agg" and q[1].startswith("closure:"):
+            return ("const", "closure", "")
+        if q[0] == "call" and q[1].endswith("ExchangeTransformer::init"):
+            return ("const", "transformer", "")
+        return None
+    return mir.subst(term, f)
+
+
+def _ordered_parts(b, term):
+    """the initial buffer as an ordered list of parts (front first): `X` then `extend(X, Y)` -> [X, Y]; chain(A, B) -> [A, B]"""
+    if term[0] == "mutated":
+        base = _ordered_parts(b, term[1])
+        later = []
+        for bi, t, tm in b.real_calls():
+            nm = mir._strip_generics(tm[1])
+            if tm[2] and tm[2][0] == term and nm.endswith(("Extend::extend", "::extend", "::push_back", "::append")):
+                later.append((bi, [tm[2][1]]))
+            elif tm[2] and tm[2][0] == term and nm.endswith("::push_front"):
+                return None
+            elif tm[2] and tm[2][0] == term and b.mut_args(t):
+                return None
+        later.sort(key=lambda x: x[0])
+        for i in range(len(later) - 1):
+            if not b.dominates(later[i][0], later[i + 1][0]):
+                return None
+        return None if base is None else base + [y for _, ys in later for y in ys]
+    if term[0] == "call" and term[1].endswith(("Iterator::collect", "FromIterator::from_iter", "IntoIterator::into_iter")) and len(term[2]) == 1:
+        return _ordered_parts(b, term[2][0])
+    if term[0] == "call" and term[1].endswith("Iterator::chain") and len(term[2]) == 2:
+        x, y = _ordered_parts(b, term[2][0]), _ordered_parts(b, term[2][1])
+        return None if x is None or y is None else x + y
+    return [term]
+
+
+def r7(ctx):
+    """start early: messages buffered during subscription validation are replayed through the sequencer AFTER it was started from
+    the snapshot, so an update admitted that way continues the snapshot - the stream must hand the consumer the snapshot events first.
+    Delivered the other way round the snapshot overwrites the admitted update: the book misses its changes, and nothing reports it."""
+    ds = [d for d in ctx.facts.bodies if "barter_data::MarketStream" in d and d.endswith("::init::{closure#0}")]
+    if len(ds) != 1:
+        raise Exception("MarketStream::init coroutine not found: %r" % ds)
+    b = ctx.ibody(ds[0])
+    news = [(bi, tm) for bi, t, tm in b.real_calls() if mir.short(tm[1]).endswith("ExchangeStream::new")]
+    ok = len(news) == 1
+    got = None
+    if ok:
+        parts = _ordered_parts(b, news[0][1][2][2])
+        got = None if parts is None else [sorted(_srcs(_strip_transformer(p))) for p in parts]
+        # front to back: all snapshot parts, then all replayed-buffered parts; both present
+        flat = [x for x in (got or []) if x]
+        ok = parts is not None and all(len(x) == 1 for x in flat) and [x[0] for x in flat] == sorted((x[0] for x in flat), key=lambda k: k != "snapshots") \
+            and {x[0] for x in flat} == {"snapshots", "buffered"}
+    ctx.check("MarketStream::init", ok, "the stream's initial buffer (drained front first) holds the snapshot events BEFORE the outputs of the "
+              "buffered messages that were validated against those snapshots", got=got, key="snapshot-first")
+    # the buffer is drained from the front, refilled at the back
+    ES = "barter_integration::stream::ExchangeStream"
+    pb = ctx.ibody(ctx.find(name="poll_next", self_adt=ES, trait="futures::Stream"))
+    takes = sorted(set(mir.short(tm[1]) for bi, t, tm in pb.real_calls() if tm[2] and render(tm[2][0]).endswith(".buffer") and pb.mut_args(t)))
+    ctx.check("ExchangeStream::poll_next", takes == ["VecDeque::pop_front", "VecDeque::push_back"],
+              "outputs are taken from the front of the buffer and appended at the back (first in, first out)", got=takes, key="fifo")
+    # the replay itself: every buffered message, in arrival order, through the transformer
+    pe = ctx.ibody(ctx.find(path="barter_data::process_buffered_events"))
+    try:
+        src, steps, sink = common.pipeline(ctx, pe.return_term())
+        got = (render(src), [k for k, v in steps], sink)
+    except Exception as e:   # noqa
+        got = "unrecognised: %s" % e
+    ctx.check("process_buffered_events", isinstance(got, tuple) and got[0] == "events" and got[2] == "collect" and bool(got[1]) and
+              all(k in ("filter", "map", "filter_map", "flat", "flat_map", "inspect") for k in got[1]) and got[1][-1] in ("flat", "flat_map"),
+              "the buffered messages are parsed and transformed one by one in arrival order (a forward pipeline, nothing reordered)", got=got, key="in-order")
+
+
 RULES = [
     ("R6", "OrderBook::update: a (re-initialisation) snapshot replaces the whole book; updates are upserted with their sequence", r6),
     ("R1", "sequencing predicate == venue rule on every assignment of the integer box (spot and USD futures)", r1),
@@ -378,4 +466,5 @@ RULES = [
     ("R3", "transformer outcome table: nothing / unidentifiable error / sequencer error surfaced / one keyed update", r3),
     ("R4", "InvalidSequence is terminal; terminal errors end the connection; wired into init_market_stream", r4),
     ("R5", "chain start from the snapshot's sequence; emitted book carries u, bids, asks", r5),
+    ("R7", "start early: snapshot events are delivered before the replayed buffered updates; FIFO buffer; in-order replay", r7),
 ]
